@@ -15,6 +15,8 @@ import (
 // A build is one RA generation by one goroutine: the forwarding read, the
 // listings it was given, the log lines it wrote, and how it ended.
 type build struct {
+	helpers  bool  // some of its system calls were made by helper goroutines it started
+	routeIdx []int // loopback interface index of each route listing
 	g       int
 	node    int
 	ifn     string
@@ -126,6 +128,25 @@ func analyse(ev []verifsim.Event) *history {
 		delete(cur, k)
 	}
 
+	// A build's system calls may be made by helper goroutines it starts (plugins
+	// applied side by side): what a goroutine without a build of its own does
+	// belongs to the nearest ancestor that has one in progress.
+	parent := map[int]int{}
+	owner := func(e *verifsim.Event) *build {
+		if e.PG != 0 {
+			parent[e.G] = e.PG
+		}
+		for g, n := e.G, 0; g != 0 && n < 8; g, n = parent[g], n+1 {
+			if b := open[g]; b != nil {
+				if g != e.G {
+					b.helpers = true
+				}
+				return b
+			}
+		}
+		return nil
+	}
+
 	for i := range ev {
 		e := &ev[i]
 		switch e.K {
@@ -171,7 +192,7 @@ func analyse(ev []verifsim.Event) *history {
 				parkStart[e.Seq] = e.T
 			}
 		case "rtnl.addr.exit":
-			if b := open[e.G]; b != nil {
+			if b := owner(e); b != nil {
 				if e.Err != "" {
 					b.addr = append(b.addr, "!"+e.Err)
 				} else {
@@ -189,23 +210,24 @@ func analyse(ev []verifsim.Event) *history {
 				}
 			}
 		case "rtnl.route.exit":
-			if b := open[e.G]; b != nil {
+			if b := owner(e); b != nil {
 				if e.Err != "" {
 					b.routes = append(b.routes, "!"+e.Err)
 				} else {
 					b.routes = append(b.routes, e.S)
 				}
+				b.routeIdx = append(b.routeIdx, int(e.V))
 				b.t2 = e.T
 				if t0, ok := parkStart[e.Ref]; ok {
 					b.held += e.T - t0
 				}
 			}
 		case "loopbacks":
-			if b := open[e.G]; b != nil && e.Err != "" {
+			if b := owner(e); b != nil && e.Err != "" {
 				b.loopErr = e.Err
 			}
 		case "log":
-			if b := open[e.G]; b != nil {
+			if b := owner(e); b != nil {
 				b.logs = append(b.logs, e.S)
 			}
 		case "write.enter":
